@@ -544,6 +544,44 @@ def r16_map_index(text, base_line=0):
     return pat.sub(lambda m: "(*%s.get(&%s).unwrap())" % (m.group(1), m.group(2)), text), log
 
 
+def r17_for_in_ref_vec(text, base_line=0):
+    """R17: `for P in E.unwrap() {` (iteration over a `&Vec`) -> `let __srcN = E.unwrap(); for __jxN in 0..__srcN.len() { let P = &__srcN[__jxN];`"""
+    log = []
+    pat = re.compile(r"for\s+(\w+)\s+in\s+([^{};]+?\.unwrap\(\))\s*\{")
+    n = 0
+    while True:
+        m = pat.search(text)
+        if not m:
+            return text, log
+        n += 1
+        p, e = m.groups()
+        new = "let __src%d = %s; for __jx%d in 0..__src%d.len() { let %s = &__src%d[__jx%d];" % (n, e, n, n, p, n, n)
+        log.append("R17 line %d: `%s` -> `%s`" % (base_line + text.count("\n", 0, m.start()), " ".join(m.group(0).split()), new))
+        text = text[:m.start()] + new + text[m.end():]
+
+
+def r18_assert_eq_shape(text, base_line=0):
+    """R18: `assert_eq_shape!(A, B);` -> its definition in src/tensor.rs: `if A != B { panic!(..) }` (then R13/R14 apply)"""
+    log = []
+    pat = re.compile(r"assert_eq_shape!\(\s*([^,;]+?)\s*,\s*([^;]+?)\s*\);")
+    for m in pat.finditer(text):
+        log.append("R18 line %d: `%s` -> `if %s != %s { panic!(..) }` (macro expanded by hand)" % (base_line + text.count("\n", 0, m.start()), m.group(0), m.group(1), m.group(2)))
+    return pat.sub(lambda m: "if %s != %s { panic!(\"shape\"); }" % (m.group(1), m.group(2)), text), log
+
+
+def r19_last_unwrap(text, base_line=0):
+    """R19: `V.last().unwrap()` -> `(&V[V.len() - 1])` for a plain identifier / field path V (vstd has no spec for `slice::last`)"""
+    log = []
+    pat = re.compile(r"((?:self\.)?\w+)\.last\(\)\.unwrap\(\)")
+    for m in pat.finditer(text):
+        log.append("R19 line %d: `%s` -> `(&%s[%s.len() - 1])`" % (base_line + text.count("\n", 0, m.start()), m.group(0), m.group(1), m.group(1)))
+    text = pat.sub(lambda m: "(&%s[%s.len() - 1])" % (m.group(1), m.group(1)), text)
+    pat2 = re.compile(r"((?:self\.)?[\w\.]+\.get\(&\w+\)\.unwrap\(\))\.last\(\)\.unwrap\(\)")
+    for m in pat2.finditer(text):
+        log.append("R19 line %d: `%s` -> `({ let __lv = %s; &__lv[__lv.len() - 1] })`" % (base_line + text.count("\n", 0, m.start()), m.group(0), m.group(1)))
+    return pat2.sub(lambda m: "({ let __lv = %s; &__lv[__lv.len() - 1] })" % m.group(1), text), log
+
+
 def r11_deref_ref_operand(text, base_line=0):
     """R11: explicit copies for `&f32` closure parameters are NOT inserted here; kept as placeholder"""
     return text, []
@@ -552,9 +590,10 @@ def r11_deref_ref_operand(text, base_line=0):
 REWRITES = {
     "R1": r1_compound_assign, "R2": r2_unary_minus, "R3": r3_scale_call, "R6": r6_for_with_continue,
     "R7": r7_isqrt, "R8": r8_step_by, "R9": r9_consts, "R10": r10_tail_continue,
-    "R12": r12_enumerate, "R15": r15_iter, "R16": r16_map_index, "R13": r13_panic_allowed, "R14": r14_panic_forbidden,
+    "R12": r12_enumerate, "R15": r15_iter, "R16": r16_map_index, "R17": r17_for_in_ref_vec, "R18": r18_assert_eq_shape,
+    "R19": r19_last_unwrap, "R13": r13_panic_allowed, "R14": r14_panic_forbidden,
 }
-ORDER = ["R13", "R14", "R16", "R12", "R15", "R10", "R8", "R6", "R9", "R7", "R3", "R1", "R2"]
+ORDER = ["R18", "R13", "R14", "R16", "R12", "R15", "R17", "R19", "R10", "R8", "R6", "R9", "R7", "R3", "R1", "R2"]
 
 
 def apply_rewrites(text, names, base_line):
